@@ -68,6 +68,67 @@ def multi_rx_scenario(rng):
             "start": "fresh", "trig": [t] * nchan, "steps": steps, "data": data, "oneblock": False}
 
 
+def repoint_scenario(rng):
+    """Every channel fires in every block; between blocks the connection set is edited so that its SIZE often returns to
+    an earlier value while its content (in particular the set of receiving channels) differs: delete one pair and add
+    another, stop everything and add as many pairs as before, swap the direction of a pair."""
+    s = multi_rx_scenario(rng)
+    nchan = s["nchan"]
+    head = [st for st in s["steps"] if st["k"] != "block"]
+    blen = [st for st in s["steps"] if st["k"] == "block"][0]["n"]
+    nsamp = s["nsamp"]
+    nblocks = rng.choice([3, 4, 5])
+    total = nblocks * blen
+    for c in range(nchan):       # extend the data: pulses at channel-specific positions all along
+        xs = [1000 + 50 * c] * total
+        pos = rng.randrange(s["npre"] + 2, 3 * nsamp)
+        while pos < total - nsamp:
+            for i in range(pos, min(total, pos + nsamp)):
+                xs[i] += int(400 * 0.8 ** (i - pos))
+            pos += rng.randrange(2 * nsamp + 3, 4 * nsamp)
+        s["data"][c] = xs
+    cur = {(st["s"], st["r"]) for st in head if st["k"] == "conn"}
+    steps = list(head)
+    for b in range(nblocks):
+        steps.append({"k": "block", "n": blen})
+        if b == nblocks - 1:
+            break
+        kind = rng.choice(["repoint", "repoint", "swap", "stop-readd", "none", "grow"])
+        if kind == "repoint" and cur:
+            a, r = rng.choice(sorted(cur))
+            steps.append({"k": "conn", "op": "del", "s": a, "r": r})
+            cur.discard((a, r))
+            cand = [(x, y) for x in range(nchan) for y in range(nchan) if x != y and (x, y) not in cur and y != r]
+            if cand:
+                x, y = rng.choice(cand)
+                steps.append({"k": "conn", "op": "add", "s": x, "r": y})
+                cur.add((x, y))
+        elif kind == "swap" and cur:
+            a, r = rng.choice(sorted(cur))
+            steps.append({"k": "conn", "op": "del", "s": a, "r": r})
+            cur.discard((a, r))
+            if (r, a) not in cur:
+                steps.append({"k": "conn", "op": "add", "s": r, "r": a})
+                cur.add((r, a))
+        elif kind == "stop-readd":
+            k = len(cur)
+            steps.append({"k": "conn", "op": "stop", "s": 0, "r": 0})
+            cur = set()
+            while len(cur) < k:
+                x, y = rng.randrange(nchan), rng.randrange(nchan)
+                if x != y and (x, y) not in cur:
+                    cur.add((x, y))
+                    steps.append({"k": "conn", "op": "add", "s": x, "r": y})
+        elif kind == "grow":
+            x, y = rng.randrange(nchan), rng.randrange(nchan)
+            steps.append({"k": "conn", "op": "add", "s": x, "r": y})
+            if x != y:
+                cur.add((x, y))
+    s["steps"] = steps
+    s["origin"] = "repoint"
+    return s
+
+
 GR = [os.path.join(vlib.HARNESS, "root", f) for f in ("common_test.go", "lifecycle_test.go", "requests_test.go", "groupreport_test.go")]
 
 
@@ -114,6 +175,9 @@ def run(ctx):
     scens += [conn_scenario(rng) for _ in range(n)]
     nm = 40 if q else 2500
     scens += [multi_rx_scenario(rng) for _ in range(nm)]
+    nr = 60 if q else 3000
+    scens += [repoint_scenario(rng) for _ in range(nr)]
+    ctx.notes["scenarios_repoint"] = nr
     ctx.notes["scenarios_multi_receiver"] = nm
     ctx.notes["scenarios_random"] = n
     events, _ = sc.validate(ctx, scens, PREFIXES)
